@@ -226,9 +226,11 @@ pub fn long_layouts(thorough: bool) -> Vec<Layout> {
         (0, 20, 0), (0, 40, 1), (0, 17, 2), (1, 75, 0), (1, 60, 1), (1, 50, 2), (1, 70, 3), (2, 300, 0), (2, 280, 1), (2, 130, 2),
         (3, 101, 0), (3, 151, 1), (3, 61, 2), (4, 150, 0), (4, 60, 1), (4, 40, 2), (4, 120, 3), (4, 130, 4), (4, 70, 5),
         (5, 130, 0), (5, 130, 1), (5, 120, 2), (5, 120, 3), (6, 160, 0),
+        // search depths of 500..1500 rounds
+        (2, 520, 0), (7, 3000, 0), (7, 2600, 2),
     ];
     let more: &[(u8, u16, u8)] = &[
-        (0, 33, 0), (0, 64, 0), (0, 100, 1), (1, 150, 0), (1, 128, 1), (1, 100, 2), (2, 520, 0), (2, 400, 1), (2, 257, 2),
+        (0, 33, 0), (0, 64, 0), (0, 100, 1), (1, 150, 0), (1, 128, 1), (1, 100, 2), (2, 700, 0), (2, 400, 1), (2, 257, 2),
         (3, 301, 0), (3, 401, 1), (3, 201, 2), (4, 300, 0), (4, 128, 1), (4, 101, 2), (4, 257, 3), (4, 256, 4), (4, 129, 5),
         (5, 101, 0), (5, 257, 1), (5, 300, 2), (5, 99, 3), (6, 400, 0),
     ];
